@@ -101,6 +101,11 @@ fn check_diff_with<T: DiffableStr + ?Sized>(alg: Algorithm, old: &T, new: &T, ki
                     || diff.iter_inline_changes_deadline(op, None),
                     flat,
                 )?;
+                crate::both_ends_modes!(
+                    || format!("{} {} op {:?}: iter_inline_changes_deadline(None)", kind, alg_name(alg), op),
+                    || diff.iter_inline_changes_deadline(op, None),
+                    flat
+                )?;
                 for c in diff.iter_inline_changes_deadline(op, None) {
                     let lossy_strings: Vec<(bool, String)> = c.iter_strings_lossy().map(|(e, s)| (e, s.to_string())).collect();
                     let want: Vec<(bool, String)> = c.values().iter().map(|(e, s)| (*e, s.to_string_lossy().to_string())).collect();
